@@ -150,6 +150,7 @@ type Cluster struct {
 
 	Script   map[string][]Outcome
 	attempts map[string]int
+	scriptAt map[string]int
 	released map[string]bool
 
 	Execs    []Exec
@@ -195,6 +196,7 @@ func New(addrs ...string) *Cluster {
 		Servers:  map[string]*ServerState{},
 		Script:   map[string][]Outcome{},
 		attempts: map[string]int{},
+		scriptAt: map[string]int{},
 		released: map[string]bool{},
 		start:    time.Now(),
 	}
